@@ -148,6 +148,25 @@ Extra ==
                                       Inc(LS(NT.t3)), T(<<124>>), Include(LS(NT.t1), Hash(<<LS(NT.k1)>>, <<LI(1)>>), TRUE, TRUE, FALSE, FALSE)>>)
                          @@ ("t1" :> <<T(<<60>>), PrintS(Var("k1")), PrintS(Var("k2")), T(<<62>>), Include(LS(NT.t3), Lit(Null), FALSE, TRUE, FALSE, FALSE)>>)
                          @@ ("t3" :> <<T(<<40>>), PrintS(Var("k1")), PrintS(Cond(Test(Var("k2"), "defined", <<>>, FALSE), LS(<<100>>), LS(<<117>>))), PrintS(Var("a")), T(<<41>>)>>)],
+    \* macros: what an included template defines or imports under a name the includer uses too stays with the included template --
+    \* the includer's macro (and the siblings it calls) are what they were, before and after the include, also in a loop
+    macafter |-> [entry |-> "main", fl |-> "",
+                  tp |-> ("main" :> <<From(LS(NT.t1), <<"mm">>, <<"mm">>), PrintS(Call("mm", <<LI(1)>>)), T(<<124>>), Inc(LS(NT.t2)), T(<<124>>), PrintS(Call("mm", <<LI(2)>>)),
+                                      For1("i", Arr(<<LI(3), LI(4)>>), <<Inc(LS(NT.t2)), PrintS(Call("mm", <<Var("i")>>))>>)>>)
+                         @@ ("t1" :> <<Macro("mm", <<Param("v")>>, <<T(<<109>>), PrintS(Call("hh", <<Var("v")>>))>>), Macro("hh", <<Param("v")>>, <<T(<<104>>), PrintS(Var("v"))>>)>>)
+                         @@ ("t2" :> <<Macro("mm", <<Param("v")>>, <<T(<<88>>), PrintS(Var("v"))>>), T(<<60>>), PrintS(Call("mm", <<LI(7)>>)), T(<<62>>)>>)],
+    macafter2 |-> [entry |-> "main", fl |-> "",
+                  tp |-> ("main" :> <<From(LS(NT.t1), <<"mm">>, <<"mm">>), PrintS(Call("mm", <<LI(1)>>)), T(<<124>>), Inc(LS(NT.t2)), T(<<124>>), PrintS(Call("mm", <<LI(2)>>))>>)
+                         @@ ("t1" :> <<Macro("mm", <<Param("v")>>, <<T(<<109>>), PrintS(Call("hh", <<Var("v")>>))>>), Macro("hh", <<Param("v")>>, <<T(<<104>>), PrintS(Var("v"))>>)>>)
+                         @@ ("t2" :> <<From(LS(NT.t3), <<"mm">>, <<"mm">>), T(<<60>>), PrintS(Call("mm", <<LI(7)>>)), T(<<62>>)>>)
+                         @@ ("t3" :> <<Macro("mm", <<Param("v")>>, <<T(<<79>>), PrintS(Call("hh", <<Var("v")>>))>>), Macro("hh", <<Param("v")>>, <<T(<<72>>), PrintS(Var("v"))>>)>>)],
+    \* the value handed to an include is computed where the include stands: parent() of the block the include is written in
+    withparent |-> [entry |-> "ph", fl |-> "",
+                  tp |-> ("ph" :> <<Extends(LS(NT.t4)), Block("bb", <<T(<<91>>), Include(LS(NT.t1), Hash(<<LS(NT.a)>>, <<Call("parent", <<>>)>>), TRUE, FALSE, FALSE, FALSE), T(<<124>>),
+                                                                     Include(LS(NT.t1), Hash(<<LS(NT.a)>>, <<Call("parent", <<>>)>>), TRUE, TRUE, FALSE, FALSE),
+                                                                     For1("i", Arr(<<LI(1), LI(2)>>), <<Include(LS(NT.t1), Hash(<<LS(NT.a)>>, <<Call("parent", <<>>)>>), TRUE, FALSE, FALSE, FALSE)>>), T(<<93>>)>>)>>)
+                         @@ ("t4" :> <<T(<<76>>), Block("bb", <<T(<<112, 98>>)>>), T(<<82>>)>>)
+                         @@ ("t1" :> <<T(<<60>>), PrintS(Var("a")), T(<<62>>)>>)],
     \* a variable that holds null is defined, in the included template as in the including one
     nulldef |-> [entry |-> "main", fl |-> "",
                   tp |-> ("main" :> <<Set("x", Lit(Null)), PrintS(Cond(Test(Var("x"), "defined", <<>>, FALSE), LS(<<100>>), LS(<<117>>))), Inc(LS(NT.t1)),
